@@ -132,22 +132,23 @@ func buildNested(srv *nestedServer) (distsys.ArchetypeResource, error) {
 	case <-started:
 		return res, nil
 	case <-time.After(20 * time.Second):
-		return res, errors.New("INCONCLUSIVE (harness): the nested context did not start")
+		return res, errors.New("INCONCLUSIVE: (harness) the nested context did not start")
 	}
 }
 
-// waitIdle waits until the nested archetype has answered everything it was sent and is reading again.
-func (srv *nestedServer) waitIdle(served int64) bool {
-	deadline := time.Now().Add(20 * time.Second)
+// waitIdle waits until the nested archetype sits in its loop with nothing to do: two further attempts to read a
+// request have begun while the number of requests served stayed the same (an attempt lasts 2 ms; the channel to the
+// nested archetype is unbuffered, so a request is either taken by such an attempt or was never sent).
+func (srv *nestedServer) waitIdle(int64) bool {
+	deadline := time.Now().Add(60 * time.Second)
 	for time.Now().Before(deadline) {
-		if srv.served.Load() >= served {
-			r := srv.reading.Load()
-			time.Sleep(3 * time.Millisecond) // an attempt to read lasts 2 ms; a second one means the loop is back at its head
-			if srv.reading.Load() > r {
-				return true
-			}
+		served, r := srv.served.Load(), srv.reading.Load()
+		for time.Now().Before(deadline) && srv.reading.Load() < r+2 {
+			time.Sleep(time.Millisecond)
 		}
-		time.Sleep(time.Millisecond)
+		if srv.served.Load() == served && srv.reading.Load() >= r+2 {
+			return true
+		}
 	}
 	return false
 }
@@ -276,7 +277,7 @@ func TestC01Nested(t *testing.T) {
 				if failed && rapid.Bool().Draw(t, "abort-after-late-answer") {
 					// the Run loop reaches this resource's Abort only after the late answer has been produced
 					if !srv.waitIdle(sent) {
-						fail("INCONCLUSIVE (harness): the nested archetype did not get back to reading")
+						fail("INCONCLUSIVE: (harness) the nested archetype did not get back to reading")
 					}
 					lateThenIdle++
 				}
@@ -306,7 +307,7 @@ func TestC01Nested(t *testing.T) {
 			}
 			// the state after the section, seen from the nested side
 			if !srv.waitIdle(sent) {
-				fail("INCONCLUSIVE (harness): the nested archetype did not get back to reading")
+				fail("INCONCLUSIVE: (harness) the nested archetype did not get back to reading")
 			}
 			srv.mu.Lock()
 			cur, com := srv.cur, srv.committed
